@@ -59,12 +59,56 @@ def _skolem(sort):
     return z3.Const(f"sk!!{_SK[0]}", sort)     # numbered per obligation (reset in solve): names do not depend on the process history
 
 
+def _nnf_top(g):
+    """push a top-level negation inwards (one step at a time; enough for the shapes contracts produce)"""
+    while z3.is_not(g):
+        x = g.arg(0)
+        if z3.is_not(x):
+            g = x.arg(0)
+        elif z3.is_or(x):
+            g = z3.And(*[z3.Not(c) for c in x.children()])
+        elif z3.is_and(x):
+            g = z3.Or(*[z3.Not(c) for c in x.children()])
+        elif z3.is_implies(x):
+            g = z3.And(x.arg(0), z3.Not(x.arg(1)))
+        elif z3.is_quantifier(x) and x.is_exists():
+            vs = [z3.Const(x.var_name(i), x.var_sort(i)) for i in range(x.num_vars())]
+            g = z3.ForAll(vs, z3.Not(z3.substitute_vars(x.body(), *reversed(vs))))
+        else:
+            break
+    return g
+
+
+def _positive_exists(g, out, depth=0):
+    """existential subformulas in positive position of g (under Or / the consequent of Implies)"""
+    if depth > 4:
+        return
+    if z3.is_quantifier(g) and g.is_exists() and g.num_vars() == 1 and g.var_sort(0) == z3.IntSort():
+        out.append(g)
+    elif z3.is_or(g):
+        for c in g.children():
+            _positive_exists(c, out, depth + 1)
+    elif z3.is_implies(g):
+        _positive_exists(g.arg(1), out, depth + 1)
+
+
 def _prove(conds, goal, depth=0, level=1, timeout_ms=None, seeds=(0, 7, 23)):
     """(result, solver) for `conds |= goal`.  Universal goals are skolemised here (also below an implication), conjunctive goals are
     discharged conjunct by conjunct, each as its own query with its own instantiation hints."""
     extra = []
     skolems = []
+    if depth == 0:
+        # existential hypotheses are replaced by witnesses (named constants, which then serve as instantiation candidates)
+        conds2 = []
+        for c in conds:
+            if z3.is_quantifier(c) and c.is_exists():
+                ws = [_skolem(c.var_sort(i)) for i in range(c.num_vars())]
+                conds2.append(z3.substitute_vars(c.body(), *reversed(ws)))
+            else:
+                conds2.append(c)
+        conds = conds2
     while True:
+        goal = _nnf_top(goal)
         if z3.is_quantifier(goal) and goal.is_forall():
             vs = [_skolem(goal.var_sort(i)) for i in range(goal.num_vars())]
             skolems.extend(vs)
@@ -102,8 +146,11 @@ def _prove(conds, goal, depth=0, level=1, timeout_ms=None, seeds=(0, 7, 23)):
             if r != z3.unsat:
                 break
         return r, s
-    # an existential goal: its negation is universal; instantiate it at the integer constants of the path (witness candidates)
-    if z3.is_quantifier(goal) and goal.is_exists() and goal.num_vars() == 1 and goal.var_sort(0) == z3.IntSort():
+    # existential (sub)goals in positive position: under the negated goal they are universally false; instantiate them at the integer
+    # constants of the path (witness candidates)
+    pos_ex = []
+    _positive_exists(goal, pos_ex)
+    if pos_ex:
         cands = {}
 
         def walk(t, d=0):
@@ -120,7 +167,8 @@ def _prove(conds, goal, depth=0, level=1, timeout_ms=None, seeds=(0, 7, 23)):
             walk(c)
         for c in list(cands.values()):
             for w in (c, c + 1):
-                base.append(z3.Not(z3.substitute_vars(goal.body(), w)))
+                for ex in pos_ex:
+                    base.append(z3.Not(z3.substitute_vars(ex.body(), w)))
             for h in conds:       # and the universal hypotheses at the same candidates
                 if z3.is_quantifier(h) and h.is_forall() and h.num_vars() == 1 and h.var_sort(0) == z3.IntSort():
                     base.append(z3.substitute_vars(h.body(), c))
